@@ -54,24 +54,34 @@ def impl(line: str) -> str:
         if op == 'iter':
             return ''.join(str(x) for x in mk(a[0]))
         if op == 'copy':
-            return show(mk(a[0]).copy())
+            b = mk(a[0]); r = b.copy()
+            if r is b: return 'alias:copy() returned the operand object itself'
+            return show(r)
         if op == 'getslice':
             s = None if a[1] == '-' else int(a[1]); e = None if a[2] == '-' else int(a[2])
-            return show(mk(a[0])[s:e])
+            b = mk(a[0]); r = b[s:e]
+            if r is b: return 'alias:slicing returned the operand object itself'
+            return show(r)
         if op == 'getbit':
             return show(mk(a[0])[int(a[1])])
         if op == 'setslice':
             b = mk(a[0]); b[int(a[1]):int(a[2])] = mk(a[3]); return show(b)
         if op == 'add':
             x, y = mk(a[0]), mk(a[1]); r = x + y
+            if r is x or r is y: return 'alias:a + b returned one of its operands (not a new Buffer)'
             return f"{show(r)} {show(x)} {show(y)}"
         if op == 'pad':
-            b = mk(a[0]); r = b.pad(P[a[1]], inplace=(a[2] == '1')); return f"{show(r)} {show(b)}"
+            b = mk(a[0]); r = b.pad(P[a[1]], inplace=(a[2] == '1'))
+            if r is b and a[2] != '1': return 'alias:pad(inplace=False) returned the operand object itself'
+            return f"{show(r)} {show(b)}"
         if op == 'shift':
-            b = mk(a[0]); r = b.shift(int(a[1]), inplace=(a[2] == '1')); return f"{show(r)} {show(b)}"
+            b = mk(a[0]); r = b.shift(int(a[1]), inplace=(a[2] == '1'))
+            if r is b and a[2] != '1': return 'alias:shift(inplace=False) returned the operand object itself'
+            return f"{show(r)} {show(b)}"
         if op in ('and', 'or', 'xor'):
             x, y = mk(a[0]), mk(a[1])
             r = (x & y) if op == 'and' else (x | y) if op == 'or' else (x ^ y)
+            if r is x or r is y: return 'alias:bitwise operator returned one of its operands'
             return f"{show(r)} {show(y)}"
         if op == 'eq':
             x, y = mk(a[0]), mk(a[1]); r = (x == y)
@@ -79,7 +89,9 @@ def impl(line: str) -> str:
         if op == 'eqbytes':
             return 'true' if mk(a[0]) == (b'' if a[1] == '-' else bytes.fromhex(a[1])) else 'false'
         if op == 'invert':
-            return show(~mk(a[0]))
+            b = mk(a[0]); r = ~b
+            if r is b: return 'alias:~b returned the operand object itself'
+            return show(r)
         if op == 'value':
             b = mk(a[0]); v = b.value(); return f"{v} {show(b)}"
         if op == 'hash':
@@ -90,7 +102,9 @@ def impl(line: str) -> str:
             ok = (h == hash(key))
             return f"{key.hex() or '-'} {show(b)}" if ok else f"hash-not-of-left-content {show(b)}"
         if op == 'chunks':
-            return ' '.join(show(c) for c in mk(a[0]).chunks(int(a[1]), padding=(a[2] == '1')))
+            b = mk(a[0]); cs = list(b.chunks(int(a[1]), padding=(a[2] == '1')))
+            if any(c is b for c in cs): return 'alias:chunks() returned the operand object itself as a chunk'
+            return ' '.join(show(c) for c in cs)
         if op == 'hashset':
             # a Buffer used as a key, then modified by slice assignment, then compared with a freshly built equal one
             b = mk(a[0]); hash(b); {b: 1}
@@ -138,6 +152,10 @@ def oracle(line: str, out: str):
     """list of (property, message) the implementation's output violates"""
     t = line.split(); op, a = t[1], t[2:]
     prop = PROP_OF_OP[op]
+    if out.startswith('alias:'):
+        # object identity: a non-in-place operation must hand back a new Buffer (else a later in-place operation on the
+        # result silently changes the operand); nothing is demanded of what an in-place operation returns
+        return [(prop, out[6:]), ('C16', out[6:])]
     v = []
     def bad(p, msgs):
         v.extend((p, m) for m in msgs)
